@@ -9,30 +9,36 @@
 Require Import V.Lib V.C08_Model V.C08_Proofs.
 Open Scope N_scope.
 
-(* ---- 1. a failed attempt never takes anything away (full, every mode, every state) ----
+(* ---- 1. a failed attempt never takes anything away (full, every mode, every well-formed state) ----
    The instance list and the mutex are exactly as before; every registered hook is still registered
    (the registry only gained hooks born in this attempt); every cached htpasswd file and every
-   roller is as before; every listening socket is still open with at least as many descriptors. *)
+   roller is as before; the table of listening sockets with their descriptor counts is EXACTLY as
+   before: what a failing start opened (new listeners, duplicated descriptors of inherited ones) it
+   closed again (fix of F-C08-2/2b/2c).  [wf] holds in every reachable state, see 8. *)
 Theorem C08_failed_attempt_loses_nothing :
   forall m step e c g r g',
-  attempt m step e c g = (r, g') -> r <> ROk ->
+  wf g -> attempt m step e c g = (r, g') -> r <> ROk ->
   g_insts g' = g_insts g /\ g_htlock g' = g_htlock g /\
   (exists k, g_hooks g' = g_hooks g ++ repeat step k) /\
   (forall f x, assoc f (g_htcache g) = Some x -> assoc f (g_htcache g') = Some x) /\
   (forall f x, assoc f (g_rollers g) = Some x -> assoc f (g_rollers g') = Some x) /\
-  socks_le (g_socks g) (g_socks g').
-Proof.
-  intros m step e c g r g' H NR.
-  destruct (failed_attempt_grow m step e c g r g' H NR) as [A1 A2 A3 A4 A5 A6]. auto 10.
-Qed.
+  g_socks g' = g_socks g.
+Proof. exact failed_attempt_loses_nothing. Qed.
 Print Assumptions C08_failed_attempt_loses_nothing.
+
+Example C08_failed_attempt_loses_nothing_nonvacuous :
+  (exists g', attempt Load 1 [] (mkcfg 1 [] [AEph 1; ABusy]) g0 = (RErr, g') /\ g_socks g' = g_socks g0) /\
+  (exists g1 g', attempt Load 1 [] (mkcfg 1 [] [AEph 1]) g0 = (ROk, g1) /\
+                 attempt Reload 2 [] (mkcfg 2 [] [AEph 1; AEph 2; ABusy]) g1 = (RErr, g') /\
+                 g_socks g' = g_socks g1 /\ sum_fds (g_socks g1) = 1%nat).
+Proof. exact listeners_closed_witness. Qed.
 
 (* ---- 2. a failed attempt leaves the running sites untouched (full) ----
    Same instances (hence same configuration marker and same basic-auth matcher for every site), every
    server's socket still open, every site still writes through the roller it had. *)
 Theorem C08_failed_attempt_sites_untouched :
   forall m step e c g r g',
-  attempt m step e c g = (r, g') -> r <> ROk ->
+  wf g -> attempt m step e c g = (r, g') -> r <> ROk ->
   g_insts g' = g_insts g /\
   (forall i, In i (g_insts g) -> alive g i -> alive g' i) /\
   (forall i x, In i (g_insts g) -> roller_of g i = Some x -> roller_of g' i = Some x).
@@ -75,28 +81,26 @@ Print Assumptions C08_htpasswd_lock_before_fix_refuted.
 
 (* ---- 5. the frame theorem ----
    Full statement "after a failed attempt the state equals the state before" is FALSE of the code as it
-   is: witnesses for the hook registry (load, validate, API-driven reload), the listening sockets and
-   their descriptors, the roller map and the htpasswd cache. *)
+   is: witnesses for the hook registry (load, validate, API-driven reload), the roller map and the
+   htpasswd cache.  (The listening sockets and their descriptors are no longer among them: see 1.) *)
 Theorem C08_failed_attempt_frame_refuted :
   (exists c g', attempt Load 1 [] c g0 = (RErr, g') /\ g_hooks g' <> g_hooks g0) /\
   (exists c g', attempt Validate 1 [] c g0 = (RErr, g') /\ g_hooks g' <> g_hooks g0) /\
   (exists c0 c g1 g', attempt Load 1 [] c0 g0 = (ROk, g1) /\ attempt Reload 2 [] c g1 = (RErr, g') /\
                       g_hooks g' <> g_hooks g1) /\
-  (exists c g', attempt Load 1 [] c g0 = (RErr, g') /\ g_socks g' <> g_socks g0) /\
-  (exists c0 c g1 g', attempt Load 1 [] c0 g0 = (ROk, g1) /\ attempt Reload 2 [] c g1 = (RErr, g') /\
-                      sum_fds (g_socks g') <> sum_fds (g_socks g1)) /\
   (exists c g', attempt Load 1 [] c g0 = (RErr, g') /\ g_rollers g' <> g_rollers g0) /\
   (exists e c g', attempt Load 1 e c g0 = (RErr, g') /\ g_htcache g' <> g_htcache g0).
 Proof. exact frame_refuted. Qed.
 Print Assumptions C08_failed_attempt_frame_refuted.
 
 (* Strongest true statement: the ENTIRE state is unchanged by a failed attempt that does not REACH one of
-   the four leaks.  [reached c] is the part of the configuration an attempt can execute (nothing of a
+   the three remaining leaks.  [reached c] is the part of the configuration an attempt can execute (nothing of a
    configuration that does not parse; of one with a bad directive only the directives before it, minus
    the startup callbacks they merely schedule); in it: no `on` hooks (unless the attempt comes through
    SIGUSR1), no htpasswd line, and — unless the attempt ends after the directives (validate, execute) —
-   no log roller and no listener opened before the failing one.  [wf] (nobody serves the foreign
-   address) holds in every reachable state, see 8. *)
+   no log roller.  Listeners are no side condition: whatever the failing start opened it closed again.
+   [wf] (nobody serves the foreign address, every socket of the table has a descriptor) holds in every
+   reachable state, see 8. *)
 Theorem C08_attempt_depends_only_on_what_it_reaches :
   forall m step e c g, attempt m step e c g = attempt m step e (reached c) g.
 Proof. exact attempt_reached. Qed.
@@ -113,6 +117,8 @@ Example C08_failed_attempt_frame_partial_nonvacuous :
   harmless Load {| c_id := 1; c_parse := PSyntax; c_effs := [EOn 2; ELog 1 1 true; EAuth 1 1]; c_addrs := [AEph 1; ABusy] |} = true /\
   harmless Reload (mkcfg 1 [ELog 1 1 true; EBad; EOn 2; EAuth 1 1] [AEph 1; ABusy]) = true /\
   harmless Load (mkcfg 1 [EOn 1; EBad] [AEph 1]) = false /\
+  harmless Load (mkcfg 1 [] [AEph 1; AEph 2; ABusy]) = true /\
+  harmless Reload (mkcfg 1 [] [AEph 1; ABusy]) = true /\
   harmless Sigusr1 (mkcfg 1 [EOn 2; EBad] [ABusy; AEph 1]) = true /\
   harmless Validate {| c_id := 1; c_parse := PSyntax; c_effs := [ELog 1 1 false]; c_addrs := [AEph 1; ABusy] |} = true /\
   fst (attempt Load 1 [] (mkcfg 1 [EBad] [AEph 1]) g0) = RErr.
